@@ -126,7 +126,13 @@ func main() {
 		cases = append(cases, caseSpec{ID: id, Mode: "crl_only", Source: "cdp_active", Enc: "pem-lf", N: 1000000, Storage: "disk", OCSP: "none", Seed: rng.Int63(), Width: 12})
 	}
 
-	w := world.New("C01")
+	// every third worker process uses an RSA issuing CA (CRLs signed sha256WithRSA), the others ECDSA
+	var w *world.World
+	if shardIndex()%3 == 1 {
+		w = world.NewWithKeys("C01", nil, pki.RSAKey(0))
+	} else {
+		w = world.New("C01")
+	}
 	defer w.Close()
 	other := world.New("C01-other") // unrelated PKI for the second CRL
 	defer other.Close()
@@ -573,4 +579,10 @@ func siblingLocations(run *report.Run, w *world.World, scratch, intPEM string) {
 			}
 		}
 	}
+}
+
+
+func shardIndex() int {
+	i, _, _ := report.Shard()
+	return i
 }
